@@ -1167,10 +1167,16 @@ static bool runPairOnce(const PairCase &pc, Rng &rng, int deadlineMs, bool final
     stat("pair_cases");
     stat("pair_connect_ms_total", el.elapsed());
     if (conflict) {
-        // both agents claim the same role: QXmpp has no tie-breaker resolution (RFC 5245 7.2.1.1), every check is dropped with
-        // "Role conflict"; recorded, not judged (the property presupposes a role assignment)
+        // both agents claim the same role (glare): the property quantifies over all role assignments, RFC 5245 7.1.2.2 / 7.2.1.1 resolve the
+        // conflict with the tie-breaker (487 + role switch); QXmpp drops every such check with "Role conflict" and answers nothing, so
+        // the two honest agents never connect (known finding, recorded)
         stat(both ? "role_conflict_connected" : "role_conflict_not_connected");
-        if (A.warns.contains(QStringLiteral("rc")) || B.warns.contains(QStringLiteral("rc"))) stat("role_conflict_warned");
+        const bool warned = A.warns.contains(QStringLiteral("rc")) || B.warns.contains(QStringLiteral("rc"));
+        if (warned) stat("role_conflict_warned");
+        if (both) oraclePass()++;
+        else oracleFail("C15:role-conflict-never-connects", name + ": two honest agents with exchanged credentials and candidates, both " + (pc.ctlA ? "controlling" : "controlled") +
+                        "; after both connectToHost() and " + std::to_string(el.elapsed()) + " ms neither is connected (A=" + std::to_string(A.conn->isConnected()) + " B=" + std::to_string(B.conn->isConnected()) +
+                        "), 'Role conflict' warned=" + std::to_string(warned) + ", every check dropped unanswered");
     } else {
         if (both && A.sig == 1 && B.sig == 1) oraclePass()++;
         else if (!finalAttempt && A.sig <= 1 && B.sig <= 1) timingMiss = true;   // judged only if it happens again on the immediate retry
